@@ -25,18 +25,23 @@ Definition bindings (P : prog) : list (list binding) := map (fun p => map (resol
 Definition subst (x y : name) (l : list name) : list name := map (fun n => if Nat.eqb n x then y else n) l.
 Inductive target := TLocal (i : nat) (x : name) | TGlobal (x : name).
 Record ropts := { r_full : bool }.
-(* the conflict check *)
+(* the conflict check.  Full: the new name must not be visible from the declaring scope, and at no
+   reference that is rewritten may it already denote something *)
+Definition uses_global (p : pou) (x : name) : bool := mem x (p_uses p) && negb (mem x (p_locals p)).
 Definition conflict (o : ropts) (P : prog) (t : target) (y : name) : bool :=
   match t with
   | TLocal i x =>
       match nth_error (g_pous P) i with
       | None => true
-      | Some p => mem y (p_locals p) || (r_full o && (mem y (g_decls P) || mem y (p_uses p)))
+      | Some p => mem y (p_locals p) || (r_full o && mem y (g_decls P))
       end
   | TGlobal x =>
       mem y (g_decls P) ||
-      (r_full o && existsb (fun p => mem y (p_locals p) || mem y (p_uses p)) (g_pous P))
+      (r_full o && existsb (fun p => uses_global p x && mem y (p_locals p)) (g_pous P))
   end.
+(* an error-free project: every identifier use denotes a declaration *)
+Definition no_unbound (P : prog) : Prop :=
+  forall p n, In p (g_pous P) -> In n (p_uses p) -> mem n (p_locals p) = true \/ mem n (g_decls P) = true.
 Fixpoint map_nth {A} (f : A -> A) (l : list A) (i : nat) : list A :=
   match l, i with [], _ => [] | x :: r, O => f x :: r | x :: r, S i' => x :: map_nth f r i' end.
 Definition apply_rename (P : prog) (t : target) (y : name) : prog :=
